@@ -328,14 +328,33 @@ class IdentityCtx(SharedCtx):
         self.p_update = p_update
         self.p_algo = p_algo
         self.busy = False
+        self.data = None
         ins.ON_UPDATE_DONE.append(self.on_update)
+
+    def run_kwargs(self):
+        kw = SharedCtx.run_kwargs(self)
+        kw["on_built"] = self.on_built
+        return kw
+
+    def on_built(self, b):
+        self.data = b.data
+
+    def px(self, sec):
+        d = self.data
+        try:
+            now = ins.top(sec).now
+            if d is not None and sec.name in d.columns and not (isinstance(now, int) and now == 0):
+                return float(d.loc[now, sec.name])
+        except Exception:
+            pass
+        return None
 
     def _check(self, root, where):
         if self.viol is not None or self.busy:
             return
         self.busy = True
         try:
-            v, n = mon1.check_identity(root, where)
+            v, n = mon1.check_identity(root, where, self.px)
             self.evals += n
             self.points += 1
             if v:
